@@ -4,7 +4,8 @@ proof part (Lean, GffModel/Conc.lean): for every number of processes, every sche
 names, each import reads back exactly what it wrote and the temp directory ends as it began.
 tie to the code: (i) trace conformance - one real GFF3 and one real GTF import under a Python audit hook: the temp-file
 operations must be an instance of the model's program (a uniquely named file created, written, read, unlinked; nothing
-else left); (ii) real schedules: N processes (below and above the core count), staggered starts, mixed GFF3/GTF inputs,
+else left) - also for a flat GFF3 without Parent attributes and a two-level gene -> mRNA GFF3, whose intermediate file
+stays empty (`judge`, replayable); (ii) real schedules: N processes (below and above the core count), staggered starts, mixed GFF3/GTF inputs,
 one shared temp dir - each database equals the solitary run's, directory empty afterwards; N concurrent readers.
 """
 import json
@@ -130,7 +131,34 @@ def make_inputs(r, scratch, k):
     dbside.write_lines(p, [gen_db.gtf_line("chr1", "CDS", 10 + 50 * i, 40 + 50 * i, "+", [("gene_id", ["G"]), ("transcript_id", ["T%d" % (i % 2)])])
                            for i in range(6)])
     jobs.append((p, {}))
+    # GFF3 inputs with fewer than three hierarchy levels - in EVERY run, whatever the random graphs above look like: a
+    # flat file (no Parent attribute at all) and a two-level file (gene -> mRNA only).  No second-level relation is
+    # written for them: the intermediate file stays empty, and must be removed all the same.  And a plain three-level one.
+    p = os.path.join(scratch, "in_flat.gff3")
+    dbside.write_lines(p, ["##gff-version 3", gen_db.gff_line("chr1", "region", 1, 5000, ".", [("ID", ["r1"])])] +
+                       [gen_db.gff_line("chr1", "repeat", 100 + 200 * i, 200 + 200 * i, "+-"[i % 2], [("ID", ["rep%d" % i])])
+                        for i in range(r.randrange(2, 6))])
+    jobs.append((p, {}))
+    p = os.path.join(scratch, "in_twolevel.gff3")
+    lines = ["##gff-version 3"]
+    for g in range(r.randrange(1, 4)):
+        lines.append(gen_db.gff_line("chr1", "gene", 1000 * g + 100, 1000 * g + 900, "+-"[g % 2], [("ID", ["g%d" % g])]))
+        for t in range(r.randrange(1, 3)):
+            lines.append(gen_db.gff_line("chr1", "mRNA", 1000 * g + 100 + 50 * t, 1000 * g + 900, "+-"[g % 2],
+                                         [("ID", ["g%dt%d" % (g, t)]), ("Parent", ["g%d" % g])]))
+    dbside.write_lines(p, lines)
+    jobs.append((p, {}))
+    p = os.path.join(scratch, "in_threelevel.gff3")
+    dbside.write_lines(p, ["##gff-version 3", gen_db.gff_line("chr1", "gene", 100, 900, "+", [("ID", ["g1"])]),
+                           gen_db.gff_line("chr1", "mRNA", 100, 900, "+", [("ID", ["t1"]), ("Parent", ["g1"])]),
+                           gen_db.gff_line("chr1", "exon", 100, 300, "+", [("ID", ["e1"]), ("Parent", ["t1"])]),
+                           gen_db.gff_line("chr1", "exon", 500, 900, "+", [("ID", ["e2"]), ("Parent", ["t1"])])])
+    jobs.append((p, {}))
     return jobs
+
+
+# positions in make_inputs(r, scratch, 8)
+I_EXPLICIT, I_INFER_T_ONLY, I_CDSONLY, I_FLAT, I_TWOLEVEL, I_THREELEVEL = 8, 10, 12, 13, 14, 15
 
 
 def trace_conformance(ctx, res, path, tag, kwargs=None, expect_tempfile=True):
@@ -172,10 +200,31 @@ def trace_conformance(ctx, res, path, tag, kwargs=None, expect_tempfile=True):
         ok, why = False, "no temp file operation was observed (the model's program has one per import)"
     res.extra.setdefault("trace_conformance", {})[tag] = {"events": [list(e) for e in events][:12], "conforms": ok}
     if not ok:
-        res.oracle_failures.append(("temp-file protocol of a single import deviates from the model's program: " + why,
-                                    {"input": path, "arguments": kwargs or {}, "events": [list(e) for e in events][:20]}))
+        with open(path) as fh:
+            text = fh.read()
+        case = {"scenario": "tempfile_protocol", "input": text.split("\n")[:-1] if text.endswith("\n") else text.split("\n"),
+                "file_name": os.path.basename(path), "arguments": kwargs or {}, "expect_tempfile": expect_tempfile,
+                "no_shrink": True}
+        common.fail(res, case, "tempfile_protocol_deviates",
+                    "temp-file protocol of a single import deviates from the model's program: " + why,
+                    events=[list(e) for e in events][:20], left=left)
     res.evaluations += 1
     return raw, left
+
+
+REPLAYED = [0]
+
+
+def judge(ctx, case):
+    """one solitary in-process import under the audit hook (scenario `tempfile_protocol`)"""
+    res = common.Result("C20")
+    if case.get("scenario") == "tempfile_protocol":
+        REPLAYED[0] += 1
+        path = dbside.write_lines(os.path.join(ctx.scratch, "replay%d_%s" % (REPLAYED[0], case.get("file_name", "in.gff3"))),
+                                  case["input"])
+        trace_conformance(ctx, res, path, "replay%d" % REPLAYED[0], case.get("arguments") or {},
+                          expect_tempfile=case.get("expect_tempfile", True))
+    return res
 
 
 def conc_case(label, traces, payloads, dir0, final):
@@ -207,7 +256,8 @@ def run(ctx):
     r = ctx.rng("c20")
     res.rule = ("process counts 2, cores/2, cores, 2 x cores (quick: up to 12; thorough: up to 2 x cores, three rounds) with "
                 "staggered start offsets 0-30 ms, mixed GFF3/GTF inputs of 5-40 lines (GTF also with one or both inference "
-                "steps disabled), separate outputs, one shared temp dir; forced interleavings (one import parked between "
+                "steps disabled; in every run a flat GFF3 without Parent attributes, a two-level gene -> mRNA GFF3 and a "
+                "three-level GFF3), separate outputs, one shared temp dir; forced interleavings (one import parked between "
                 "writing and re-reading its intermediate file while another import runs to completion); then 2-8 "
                 "concurrent readers per database. non-trivial = distinct (round, process) whose import goes "
                 "through the temp-file pass")
@@ -221,14 +271,16 @@ def run(ctx):
     inputs = make_inputs(r, ctx.scratch, 8)
     conc = []           # (label, command, expected reply, schedule) for the Conc correspondence
     # (i) trace conformance, and the same traces as a sequential three-process schedule of the model
-    seq = [(inputs[0], "gff3"), (inputs[1], "gtf"), (inputs[-1], "gtf_without_exons"), (inputs[-3], "gtf_infer_transcripts_only")]
+    seq = [(inputs[0], "gff3"), (inputs[1], "gtf"), (inputs[I_CDSONLY], "gtf_without_exons"),
+           (inputs[I_INFER_T_ONLY], "gtf_infer_transcripts_only"), (inputs[I_FLAT], "gff3_flat_no_parent_attribute"),
+           (inputs[I_TWOLEVEL], "gff3_two_levels_gene_mRNA"), (inputs[I_THREELEVEL], "gff3_three_levels")]
     traces = [trace_conformance(ctx, res, p, tag, kw)[0] for (p, kw), tag in seq]
     again = [trace_conformance(ctx, res, p, tag + "_again", kw)[0] for (p, kw), tag in seq]
     payloads = [next((o[4] for o in conctrace.program_of(ev) if o[1] == "read"), None) for ev in again]
     if all(x is not None for x in payloads):
         # the imports ran one after the other, each in an empty directory of its own: one schedule over one directory
         conc.append(conc_case("sequential in-process imports", traces, payloads, {}, []))
-    trace_conformance(ctx, res, inputs[8][0], "gtf_inference_disabled", inputs[8][1], expect_tempfile=False)
+    trace_conformance(ctx, res, inputs[I_EXPLICIT][0], "gtf_inference_disabled", inputs[I_EXPLICIT][1], expect_tempfile=False)
     # solitary runs
     solo = {}
     for i, (p, kw) in enumerate(inputs):
@@ -252,6 +304,8 @@ def run(ctx):
             procs = []
             for j in range(n):
                 k = (j + rd) % len(inputs) if j % 3 else rd % len(inputs)   # some share the same input
+                if n >= 4 and j >= n - 2:
+                    k = (I_FLAT, I_TWOLEVEL)[n - 1 - j]      # every batch of >= 4 imports has the flat and the two-level GFF3
                 p, kw = inputs[k]
                 out = os.path.join(ctx.scratch, "par_%d_%d_%d.db" % (rd, n, j))
                 delay = r.choice([0, 0, 0.005, 0.01, 0.03])
@@ -301,7 +355,7 @@ def run(ctx):
         solo_parked[bi] = q.stdout.strip()
         if not solo_parked[bi].startswith("ok "):
             raise common.Infra("solitary import failed for %s" % bp)
-    combos = [(bi, ai) for bi in range(2) for ai in ((0, 1) if not ctx.thorough else (0, 1, 8, 9, 11))]
+    combos = [(bi, ai) for bi in range(2) for ai in ((0, 1) if not ctx.thorough else (0, 1, 8, 9, 11, I_FLAT, I_TWOLEVEL))]
     for ci, (bi, ai) in enumerate(combos):
         tag = "forced%d" % ci
         in_window, a_done, b_done = (os.path.join(flags, "%s_%s" % (tag, x)) for x in ("b_in_window", "a_done", "b_done"))
@@ -464,6 +518,9 @@ def run(ctx):
 
 
 def replay(ctx, payload):
+    p = payload.get("input")
+    if isinstance(p, dict) and p.get("scenario") == "tempfile_protocol" and "kind" in p:
+        return common.replay_failure("C20", payload, lambda case: judge(ctx, case))
     res = common.Result("C20")
     print("replay:", payload.get("what"), payload.get("input"))
     return res
